@@ -38,7 +38,7 @@ def fed(pid, what):
     chk(pid, "simfed", what + " Seeded sampling of histories and fault sequences, not proof.", SIMFED_NOTE, SIMFED_TECH, f"DESIGN.md §4, §7 {pid}")
 
 fed("C01", "Every PDU text a Ruma node ingests (respelled by the transport: key order, whitespace, escape spellings, duplicate keys; produced by Ref/Byz peers) must parse to the value the rj model parses and re-serialise to rj's canonical bytes; parse-back equality; value-level probes incl. non-representable numbers that must be refused. The key-order/spelling clause is decided by the respell fault; breadth of values is workload sampling.")
-fed("C02", "Signing flows between servers and an identity server (1-3 signers in tape order, real and model signers mixed, cross-verification), tamper classes on signed objects (content / signature bit / key bit / key id / unsigned only / respelling / extra entity) judged against rsig in both directions, and snapshot comparison after every failing sign_json.")
+fed("C02", "Signing flows between servers and an identity server (1-3 signers in tape order, real and model signers mixed, cross-verification; an entity's second key id is a rotated key or an alias of the same key bytes), tamper classes on signed objects (content / signature bit / key bit / key id / unsigned only / respelling / extra entity) judged against rsig in both directions, and snapshot comparison after every failing sign_json.")
 fed("C03", "Every PDU creation, countersigning and receipt in room versions 1-11 is judged against rsig+rredact+rsigners: hash_and_sign_event bytes, verify_event result class (All / Signatures / error) for clean, respelled, tampered-by-class, relay-redacted and reloaded-after-crash copies, required signers incl. v1-2 foreign event IDs and restricted-join countersignatures.")
 fed("C04", "Redaction at every place a node redacts (inside sign/verify/hash, on hash mismatch, relay-redact chains of 1-3 hops, entry point chosen by the tape) plus observer probes over every special event type with specified and unspecified keys, compared with the rredact table for versions 1-11 (obtained through RoomVersionId); entry-point agreement, idempotence, redacted_because. The (version,type,key) table coverage itself is workload sampling.")
 fed("C05", "Every server derives each event's ID independently on receipt, after restart and from relay-redacted copies; IDs, content hashes and reference hashes are compared with rsha/rb64/rredact; tamper classes decide which changes must move the hash; boundary-size events are sized with the reference encoder to 65535±{0,1,2} bytes and must be refused exactly above the limit - by hashing, signing and (inflated after signing) by verify_event; unsigned-only tampers incl. a redacted_because on an unredacted copy must not move the ID.")
